@@ -277,7 +277,7 @@ def run_check(check, tier, seed, budget_s=None, workers=None, nplans=None, selft
             print(f"  detail: {json.dumps(vs3[0].get('detail'), default=str)[:1500]}")
         # ---- determinism self-test
         det = None
-        if selftest and not stop.is_set() or selftest and cfg.get("always_selftest"):
+        if selftest:
             det = determinism_selftest(check, runner, seed, tier, cfg.get("det_plans", 2))
             if det["mismatches"]:
                 harness.append({"plan": -1, "kind": "nondeterminism", "detail": json.dumps(det)[:1500]})
